@@ -1,0 +1,115 @@
+// Copyright (C) 2024, Ava Labs, Inc. All rights reserved.
+// See the file LICENSE for licensing terms.
+
+//go:build verif
+
+// Package verifhook provides scheduling and fault-injection seams for
+// deterministic simulation. With the "verif" build tag the functions forward
+// to callbacks installed by a simulator; with no simulator installed they do
+// nothing.
+package verifhook
+
+import "sync/atomic"
+
+// Enabled reports whether the hooks are compiled in.
+const Enabled = true
+
+type Locker interface {
+	TryLock() bool
+	Unlock()
+}
+
+type RLocker interface {
+	TryRLock() bool
+	RUnlock()
+}
+
+// Hooks is the set of callbacks a simulator installs.
+type Hooks struct {
+	// Yield parks the calling goroutine until the simulator releases it.
+	// If [free] is non-nil the goroutine is only released when free() is true
+	// (used to wait for a lock without blocking on it).
+	Yield func(site string, key uint64, free func() bool)
+	// Fault lets the simulator inject an error (or never return) at a fault point.
+	Fault func(site string, arg string) error
+	// FS returns a substitute file system (a pebble vfs.FS) for [dir] or nil.
+	FS func(dir string) any
+}
+
+var installed atomic.Pointer[Hooks]
+
+// Install sets the active hooks; nil removes them.
+func Install(h *Hooks) { installed.Store(h) }
+
+func Yield(site string) {
+	if h := installed.Load(); h != nil && h.Yield != nil {
+		h.Yield(site, 0, nil)
+	}
+}
+
+func YieldK(site string, key uint64) {
+	if h := installed.Load(); h != nil && h.Yield != nil {
+		h.Yield(site, key, nil)
+	}
+}
+
+// AwaitLock returns when [l] is free and the simulator scheduled the caller.
+// It must be directly followed by l.Lock().
+func AwaitLock(site string, key uint64, l Locker) {
+	if h := installed.Load(); h != nil && h.Yield != nil {
+		h.Yield(site, key, func() bool {
+			if l.TryLock() {
+				l.Unlock()
+				return true
+			}
+			return false
+		})
+	}
+}
+
+// AwaitRLock is AwaitLock for the read side of a RWMutex.
+func AwaitRLock(site string, key uint64, l RLocker) {
+	if h := installed.Load(); h != nil && h.Yield != nil {
+		h.Yield(site, key, func() bool {
+			if l.TryRLock() {
+				l.RUnlock()
+				return true
+			}
+			return false
+		})
+	}
+}
+
+func Fault(site string, arg string) error {
+	if h := installed.Load(); h != nil && h.Fault != nil {
+		return h.Fault(site, arg)
+	}
+	return nil
+}
+
+func FS(dir string) any {
+	if h := installed.Load(); h != nil && h.FS != nil {
+		return h.FS(dir)
+	}
+	return nil
+}
+
+// H hashes a string into a hook key (FNV-1a).
+func H(s string) uint64 {
+	h := uint64(14695981039346656037)
+	for i := 0; i < len(s); i++ {
+		h ^= uint64(s[i])
+		h *= 1099511628211
+	}
+	return h
+}
+
+// HB hashes a byte slice into a hook key (FNV-1a).
+func HB(b []byte) uint64 {
+	h := uint64(14695981039346656037)
+	for i := 0; i < len(b); i++ {
+		h ^= uint64(b[i])
+		h *= 1099511628211
+	}
+	return h
+}
